@@ -25,8 +25,18 @@ INPUTS = ('right1', 'right2', 'wrong', 'malformed', 'nontext')
 def specs():
     """per class: constructor, base config, concrete strings for every abstract expect kind / input kind"""
     from mitxgraders import (StringGrader, FormulaGrader, NumericalGrader, MatrixGrader, SingleListGrader,
-                             IntervalGrader)
+                             IntervalGrader, RandomFunction)
     return {
+        'FormulaGrader+RandomFunction': dict(
+            cls=FormulaGrader, base=lambda: {'variables': ['x'], 'samples': 2, 'user_functions': {'h': RandomFunction()},
+                                             'user_constants': {'c0': 2.5}},
+            e1='h(x)+c0', e2='2*h(x)', badCheck='h(x)+',
+            right1='c0+h(x)', right2='h(x)*2', wrong='h(x+1)', malformed='h(x,'),
+        'SingleListGrader+tuple-answers': dict(
+            cls=SingleListGrader, base=lambda: {'subgrader': StringGrader()},
+            configured_answers=lambda: (['a', 'b'], ['c', 'd']),
+            e1='a,b', e2='c,d', badPost='a,,b',
+            right1='b,a', right2='c,d', wrong='x,y', malformed='a,,'),
         'StringGrader': dict(cls=StringGrader, base=lambda: {'validation_pattern': '[a-z]+'},
                              e1='cat', e2='dog', badCheck='CAT9',
                              right1='cat', right2='dog', wrong='bird', malformed='###'),
@@ -110,14 +120,33 @@ def make(spec, configured, debug):
     cfg = spec['base']()
     cfg['debug'] = debug
     if configured:
-        cfg['answers'] = spec['e1']
-    keep = copy.deepcopy({k: v for k, v in cfg.items() if k != 'subgrader'})
+        cfg['answers'] = spec['configured_answers']() if 'configured_answers' in spec else spec['e1']
+    keep = snapshot_cfg(cfg)
     g = spec['cls'](cfg)
     return g, cfg, keep
 
 
+OPAQUE = ('subgrader', 'user_functions')
+
+
+def snapshot_cfg(cfg):
+    """deep copy of the author's configuration; grader / function objects are compared by identity"""
+    return {k: (copy.deepcopy(v) if k not in OPAQUE else (id(v), sorted(v) if isinstance(v, dict) else None))
+            for k, v in cfg.items()}
+
+
 def config_unchanged(cfg, keep):
-    return {k: v for k, v in cfg.items() if k != 'subgrader'} == keep and set(cfg) - {'subgrader'} == set(keep)
+    return snapshot_cfg(cfg) == keep
+
+
+def scopes_snapshot(g):
+    """the variable / function / constant scopes a math grader hands to the evaluator (names and object identity)"""
+    out = []
+    for name in ('functions', 'random_funcs', 'constants', 'suffixes'):
+        d = getattr(g, name, None)
+        if isinstance(d, dict):
+            out.append((name, tuple(sorted((k, id(v) if callable(v) else repr(v)) for k, v in d.items()))))
+    return tuple(out)
 
 
 def project_state(g):
@@ -132,8 +161,9 @@ def replay_one(spec, configured, debug, hist, g0snap):
     probs, drift = [], 0
     g, cfg, keep = make(spec, configured, debug)
     if not config_unchanged(cfg, keep):
-        probs.append(('config', 'construction changed the author\'s configuration dictionary: %s -> %s' % (keep, {k: v for k, v in cfg.items() if k != 'subgrader'})))
-        keep = copy.deepcopy({k: v for k, v in cfg.items() if k != 'subgrader'})
+        probs.append(('config', 'construction changed the author\'s configuration dictionary: %s -> %s' % (keep, snapshot_cfg(cfg))))
+        keep = snapshot_cfg(cfg)
+    scopes = scopes_snapshot(g)
     for n, h in enumerate(hist):
         e, i = h['e'], h['i']
         expect = None if e == 'none' else spec[e]
@@ -160,6 +190,11 @@ def replay_one(spec, configured, debug, hist, g0snap):
             drift += 1
         if not config_unchanged(cfg, keep):
             probs.append(('config', 'call %d changed the author\'s configuration dictionary' % (n + 1)))
+            keep = snapshot_cfg(cfg)
+        if scopes_snapshot(g) != scopes:
+            probs.append(('scopes', 'call %d changed the scopes the grader hands to the evaluator: %s -> %s' % (
+                n + 1, [(a, [k for k, _ in b]) for a, b in scopes], [(a, [k for k, _ in b]) for a, b in scopes_snapshot(g)])))
+            scopes = scopes_snapshot(g)
         if globals_snapshot() != g0snap:
             probs.append(('globals', 'call %d changed process-wide settings' % (n + 1)))
             g0snap = globals_snapshot()
@@ -196,7 +231,7 @@ def collect_hists(states, extra):
 def random_chunk(items, extra):
     from engine import repo
     repo.activate()
-    from mitxgraders import MatrixGrader, ListGrader, StringGrader, FormulaGrader
+    from mitxgraders import MatrixGrader, ListGrader, StringGrader, FormulaGrader, NumericalGrader
     S = specs()
     recs = []
     for seed_, count, start in items:
@@ -209,17 +244,27 @@ def random_chunk(items, extra):
             debug = rng.random() < 0.4
             g, cfg, keep = make(S[cname], configured, debug)
             objs.append(dict(gid='g%d_%d' % (seed_ % 100000, gi), cname=cname, configured=configured, debug=debug,
-                             g=g, cfg=cfg, keep=keep, n=0))
+                             g=g, cfg=cfg, keep=keep, n=0, scopes=scopes_snapshot(g)))
         # bystanders that share process-wide switches / subgraders with the graders under observation
         shared_sub = StringGrader()
         lg = ListGrader(answers=['a', 'b'], subgraders=shared_sub)
         mg = MatrixGrader(answers='[[1,0],[0,1]]', negative_powers=False, max_array_dim=2)
+        mg2 = MatrixGrader(answers='[[1,0],[0,1]]', max_array_dim=2)
+        ng = NumericalGrader(answers='1')
         reuse_cfg = {'variables': ['x'], 'answers': 'x+1'}
         for k in range(count):
             r = rng.random()
             if r < 0.08:
                 try:
                     mg(None, rng.choice(['[[1,0],[0,1]]^-1', '[[1,0],[0,1]]', '[[2,0],[0,2]]^-1/0']))
+                except Exception:  # noqa
+                    pass
+                try:
+                    mg2(None, rng.choice(['[[1,2],[2,4]]^-1', '[[1,2],[3,4]]^-1', '[[1,2],[2,4]]^-2*0', '[1,2]/0', '[[1,0],[0,1]]^0.5']))
+                except Exception:  # noqa
+                    pass
+                try:
+                    ng(None, rng.choice(['ln(0)', '1/0', '10^400', 'arcsin(2)', 'sqrt(-1)']))
                 except Exception:  # noqa
                     pass
             elif r < 0.14:
@@ -259,9 +304,12 @@ def random_chunk(items, extra):
             recs.append({'id': start + k, 'gid': o['gid'], 'cls': o['cname'], 'configured': o['configured'],
                          'debug': o['debug'], 'e': e, 'i': i, 'expect': expect, 'text': text, 'obs': digest(obs),
                          'fresh': fresh, 'log_ok': log_ok(obs, text, o['debug']),
-                         'globals_ok': now == snap, 'config_ok': config_unchanged(o['cfg'], o['keep']),
+                         'globals_ok': now == snap,
+                         'config_ok': config_unchanged(o['cfg'], o['keep']) and scopes_snapshot(o['g']) == o['scopes'],
                          'obs_plain': repr(obs)[:300]})
             snap = now
+            o['keep'] = snapshot_cfg(o['cfg'])
+            o['scopes'] = scopes_snapshot(o['g'])
             if reuse_cfg != {'variables': ['x'], 'answers': 'x+1'}:
                 recs[-1]['config_ok'] = False
                 reuse_cfg = {'variables': ['x'], 'answers': 'x+1'}
@@ -367,7 +415,7 @@ def run(ctx):
 
 def classify(b):
     """stable class names for known findings"""
-    if b['aspect'] == 'config' and b['cls'] == 'IntervalGrader':
+    if b['aspect'] == 'config' and b['cls'].startswith('IntervalGrader'):
         return 'intervalgrader-mutates-config'
     if b['aspect'] in ('log', 'debug log mentions another call'):
         return 'stale-debug-log-after-failed-inference'
